@@ -38,6 +38,20 @@ def dn(y, m, d):
     return vlib.dayno(y, m, d)
 
 
+def binary_bands(rnd, mx, ks=range(7, 41)):
+    """Microsecond counts at and inside the binary bands of every clock unit: unit * 2^k (-1, 0, +1 microsecond) and a
+    point in the middle of the band [2^k, 2^(k+1)) - where a count of microseconds / seconds / minutes / hours / days
+    crosses an 8/16/32-bit width (narrowing casts, 'fast paths' for small values)."""
+    out = []
+    for unit in (1, 10**6, 60 * 10**6, 3600 * 10**6, 86400 * 10**6):
+        for k_ in ks:
+            base = unit * 2**k_
+            for x in (base - 1, base, base + 1, base + base // 2 + rnd.randint(0, max(1, unit - 1)), base + rnd.randint(0, base - 1)):
+                if abs(x) <= mx:
+                    out += [x, -x]
+    return out
+
+
 def uniq(xs):
     seen, out = set(), []
     for x in xs:
@@ -132,6 +146,7 @@ class Pools:
                        for us in (0, 1, 999999)]
         self.dt_grid = [us3(sg * ((d * 86400 + h * 3600 + mi * 60 + sc) * 10**6 + us)) for sg in (1, -1) for d in (0, 45)
                         for h in (0, 7, 23) for mi in (0, 1, 59) for sc in (0, 1, 59) for us in (0, 1, 999999)]
+        self.dt_grid += [us3(x) for x in binary_bands(rnd, dtmax, ks=(15, 16, 31, 32))]
         self.unit = list(range(1, 13))
         self.clock = [[2024, 2, 29, 13, 14, 15, 123456], [1, 1, 1, 0, 0, 0, 0], [9999, 12, 31, 23, 59, 59, 999999],
                       [10000, 1, 1, 0, 0, 0, 0], [0, 12, 31, 12, 0, 0, 0], [1970, 1, 1, 0, 0, 0, 1], [2023, 1, 31, 1, 2, 3, 4]]
